@@ -19,7 +19,7 @@ META = {
     "assumptions": ["reference model gives the expected start of every operation under the drawing's durations (compact: the drawing's own registry, otherwise the "
                     "current global settings); two-qubit gates drawn side by side may be offset by at most 0.25 x duration^2 (documented artistic offset)"],
     "floors": {
-        "quick": {"drawings": 3800, "placements_checked": 20000, "rows_checked": 30000, "snapshots_compared": 3800, "unknown_channel_rejected": 300, "unknown_channel_zero_rejected": 40,
+        "quick": {"operations_with_draw_component": 15000, "drawings": 3800, "placements_checked": 20000, "rows_checked": 30000, "snapshots_compared": 3800, "unknown_channel_rejected": 300, "unknown_channel_zero_rejected": 40,
                   "compact_under_nondefault_global": 800, "label_maps_checked": 1000, "isolated_cphase_dots_checked": 300, "barrier_extents_checked": 400},
         "thorough": {"drawings": 38000, "placements_checked": 200000, "snapshots_compared": 38000, "unknown_channel_rejected": 3000},
     },
@@ -70,6 +70,25 @@ def install_hooks():
         return orig_barrier(self, axes)
 
     BlockVerticalBarrier.draw = barrier_draw
+    # every per-operation draw-component factory: which operations get a draw component at all (the pivot hook above also fires for
+    # operations that are only measured for the side-by-side arrangement and never drawn)
+    import inspect
+    import qce_circuit.visualization.visualize_circuit.draw_components.factory_draw_components as fdc
+    for _, cls in inspect.getmembers(fdc, inspect.isclass):
+        fn = cls.__dict__.get("construct")
+        if fn is None or cls.__module__ != fdc.__name__:
+            continue
+        params = list(inspect.signature(fn).parameters)
+        if params[:2] != ["self", "operation"]:
+            continue
+
+        def make(orig):
+            def construct(self, operation, *a, **kw):
+                _HOOKS.setdefault("constructed", []).append(operation)
+                return orig(self, operation, *a, **kw)
+            return construct
+
+        cls.construct = make(fn)
     _HOOKS["installed"] = True
 
 
@@ -184,6 +203,7 @@ def check_program(prog: Dict[str, Any], acc: Acc, flags=None):
         labels = {int(k): v for k, v in opt["labels"].items()} if opt["labels"] is not None else None
         _HOOKS["placements"] = []
         _HOOKS["dots"] = []
+        _HOOKS["constructed"] = []
         _HOOKS["barriers"] = []
         _HOOKS["description"] = None
         memo_shadow.drain()
@@ -286,6 +306,32 @@ def _check_drawing(acc: Acc, case, opt, occupied: List[int], labels, S: M.Settin
                         {"op": sig[0], "x": x, "model_starts": sorted(starts)[:6], "compact": opt["compact"]})
             return
         starts.remove(min(hit, key=lambda s: abs(s - x)))
+    # "places EACH operation": nothing of the listing is left without a position (seeded change C18-r13: a two-qubit kind missing from the
+    # bulk factory's table was skipped silently)
+    acc.count("complete_placement_checks")
+    missing = [(sig_left[0], list(sig_left[1]), st) for sig_left, starts_left in expect.items() for st in starts_left]
+    if missing:
+        acc.finding("placement/missing", "an operation of the circuit is given no position on any row", case,
+                    {"kind": missing[0][0], "qubits": missing[0][1], "start": missing[0][2], "n_missing": len(missing)})
+        return
+    drawn: Dict[Tuple, int] = {}
+    for op in (_HOOKS.get("constructed") or []):
+        if not snap.is_composite(op):
+            k = _sig_under(op, draw_S)
+            drawn[k] = drawn.get(k, 0) + 1
+            acc.hist("component_constructed_for_kind", type(op).__name__)
+    # the kinds the drawer has no symbol for (plain TwoQubitOperation, TwoQubitVirtualPhase) are outside "all drawable operation kinds"
+    for n, s_, e_ in M.leaf_records(model_level, draw_S, 0.0):
+        k = M.sig(n, draw_S)
+        if drawn.get(k, 0) > 0:
+            drawn[k] -= 1
+            acc.count("operations_with_draw_component")
+        elif k[0] in ("TwoQubitOperation", "TwoQubitVirtualPhase"):
+            acc.hist("no_component_for_kind", k[0])
+        else:
+            acc.finding("placement/missing", "a drawable operation of the circuit gets no draw component (it is not drawn at all)", case,
+                        {"kind": k[0], "qubits": list(k[1]), "start": s_})
+            return
     # ---- final position of controlled-phase gates that share their time slot with no other two-qubit gate on intersecting rows:
     #      both dots exactly at start + duration / 2 on the rows of their qubits (the side-by-side arrangement applies to gates
     #      whose row ranges intersect only)
